@@ -82,6 +82,14 @@ type termer struct {
 	// ctx is the block of the instruction whose operand is being rendered: a phi that a guard
 	// dominating ctx pins to one incoming edge (resolveUnderGuards) is rendered as that edge
 	ctx *ssa.BasicBlock
+	// path: phis whose block the path went through are rendered as the edge the path took
+	path *Path
+}
+
+// Term renders v as it is on this path: every phi takes the value of the edge the path came along.
+func (p *Path) Term(v ssa.Value) string {
+	t := &termer{phis: map[*ssa.Phi]bool{}, path: p}
+	return t.val(v)
 }
 
 // Distinct phis of one function can have the same structural term (every `for i := range x`
@@ -384,6 +392,11 @@ func (t *termer) val(v ssa.Value) string {
 		}
 		return "closure:" + fnName(x.Fn.(*ssa.Function)) + "[" + strings.Join(bs, ", ") + "]"
 	case *ssa.Phi:
+		if t.path != nil {
+			if rv := t.path.Resolve(x); rv != ssa.Value(x) {
+				return t.val(rv)
+			}
+		}
 		if t.phis[x] {
 			return "↺"
 		}
